@@ -187,6 +187,9 @@ def invert_pl_function(x: np.ndarray, y: np.ndarray, t: np.ndarray) -> List[np.n
     """
     x = np.asarray(x)
     y = np.asarray(y)
+    # The values can be counts or flags. Differences of unsigned or narrow integers wrap
+    # around and booleans cannot be subtracted at all, so we interpolate in floating point.
+    y = y.astype(np.result_type(y.dtype, float), copy=False)
     t = np.asarray(t)
     t_scalar = t.ndim == 0  # Is input a scalar?
 
